@@ -32,6 +32,8 @@ def run(ctx):
                 "one non-empty view was compared with &buf[offset] and written through; allocation: one case = PayloadID class x family x "
                 "tracking status enumerated by TLC, non-trivial = AllocFree(status) and measured; distinct by digest of the abstract case" % run.k,
         "views_alias_checked": c.get("alias_checked", 0),
+        "refetch_after_header_write_checks": c.get("refetch_checks", 0),
+        "pending_ping_allocation_cases": run.alloc_counts.get("alloc_measured_ping_pending", 0),
         "alloc_cases": run.alloc_counts.get("alloc_cases", 0), "alloc_cases_measured": run.alloc_counts.get("alloc_measured", 0),
         "alloc_cases_not_required": run.alloc_counts.get("alloc_not_required", 0),
         "interleaved_sets_measured": run.alloc_counts.get("allocset_measured", 0),
